@@ -21,7 +21,8 @@ Workloads
             counts / ids, CIS ids that equal CIG ids), Remove CIG then configure again, two CIGs, then LE
             Create CIS (one command or one per CIG, raw HCI or Device.setup_cig/create_cis): every CIS handle
             accepted as pending is concluded by an LE CIS Established event carrying THAT handle, on the
-            central and (LE Accept CIS Request) on the peripheral; established CIS disconnected and created again
+            central and (LE Accept CIS Request) on the peripheral; established CIS disconnected and created again;
+            Disconnect for a CIS that is configured but not created / down already (refused, or concluded)
   train     stateful command trains: advertising / scan response / periodic advertising data written in
             fragments (FIRST, INTERMEDIATE*, LAST; UNCHANGED; COMPLETE after a partial train; LAST without
             FIRST; a second train; trains for two handles and several data kinds interleaved, sets removed or
@@ -48,20 +49,23 @@ ASSUMPTIONS = [
     'the completion event of a procedure is identified by event code (and LE sub-event code) as listed in PROCEDURES',
     'a command answered with a non-PENDING Command Status needs no completion event',
     'synchronous (SCO/eSCO) set-up is not followed: its conclusion depends on the peer host answering the request',
+    'cig: LE Set CIG Parameters is only repeated while no CIS of that CIG was created (the CIG is configurable); the '
+    'peripheral hosts accept every CIS request; a refused LE Create CIS (non-PENDING status) needs no completion',
+    'train: only the answers are judged (one per command, own opcode, later commands served), not the stored data',
 ]
 MIN_EVENTS = {
     'quick': {'commands_swept': 2000, 'distinct_opcodes_swept': 200, 'pending_procedures_followed': 100,
               'host_commands': 5000, 'own_opcode_checks': 5000, 'proc_cases': 150,
-              'cig_histories': 100, 'cis_handles_followed': 150, 'cis_created_after_reconfiguration': 40,
-              'cis_created_after_remove_and_reconfiguration': 10, 'cis_created_in_two_cigs': 20,
-              'cis_accepts_followed': 150, 'train_cases': 120, 'train_commands': 1500,
-              'train_continuation_fragments': 400, 'train_followups_answered': 120},
+              'cig_histories': 250, 'cis_handles_followed': 400, 'cis_created_after_reconfiguration': 100,
+              'cis_created_after_remove_and_reconfiguration': 15, 'cis_created_in_two_cigs': 50,
+              'cis_accepts_followed': 400, 'cis_recreated_after_disconnect': 60, 'cis_disconnect_before_create': 50, 'train_cases': 300,
+              'train_commands': 3500, 'train_continuation_fragments': 1000, 'train_followups_answered': 500},
     'thorough': {'commands_swept': 18000, 'distinct_opcodes_swept': 220, 'pending_procedures_followed': 600,
                  'host_commands': 30000, 'own_opcode_checks': 30000, 'proc_cases': 800,
-                 'cig_histories': 700, 'cis_handles_followed': 1000, 'cis_created_after_reconfiguration': 300,
-                 'cis_created_after_remove_and_reconfiguration': 80, 'cis_created_in_two_cigs': 150,
-                 'cis_accepts_followed': 1000, 'train_cases': 900, 'train_commands': 12000,
-                 'train_continuation_fragments': 3000, 'train_followups_answered': 900},
+                 'cig_histories': 1600, 'cis_handles_followed': 2500, 'cis_created_after_reconfiguration': 700,
+                 'cis_created_after_remove_and_reconfiguration': 120, 'cis_created_in_two_cigs': 400,
+                 'cis_accepts_followed': 2500, 'cis_recreated_after_disconnect': 400, 'cis_disconnect_before_create': 350, 'train_cases': 2000,
+                 'train_commands': 25000, 'train_continuation_fragments': 8000, 'train_followups_answered': 3500},
 }
 CASE_TIMEOUT = 600
 
@@ -122,9 +126,9 @@ def plan(tier, seed):
     for p in procs:
         for k in range(reps):
             cases.append({'kind': 'proc', 'proc': p, 'seed': seed * 1000003 + k})
-    for i in range(140 if tier == 'quick' else 1000):
+    for i in range(300 if tier == 'quick' else 2000):
         cases.append({'kind': 'cig', 'seed': seed * 1000003 + i})
-    for i in range(160 if tier == 'quick' else 1200):
+    for i in range(400 if tier == 'quick' else 2500):
         cases.append({'kind': 'train', 'seed': seed * 1000003 + i})
     return cases
 
@@ -897,6 +901,26 @@ async def cig_case(case, r: R):
             current.pop(cig, None)
             sets_since_remove[cig] = 0
 
+    # ---- Disconnect for a CIS that is configured but was never created: refused, or concluded ------
+    if current and rng.random() < 0.3:
+        h = rng.choice([hh for v in current.values() for _i, hh in v])
+        mark = len(rg.hci_log)
+        resp = await command(hci.HCI_Disconnect_Command(connection_handle=h, reason=0x13), 'disconnect-cis')
+        if resp is None:
+            return
+        st = getattr(resp, 'status', 1)
+        hist.append(('disconnect-not-created', hex(h), f'status {st}'))
+        r.ev('cis_disconnect_before_create')
+        if st == 0:
+            r.ev('pending_procedures_followed')
+            await asyncio.sleep(2.0)
+            await rg.quiesce()
+            r.ev('oracle_evals')
+            if not [e for e in disconnection_events(rg.hci_log, 0, mark) if e[2] == h]:
+                r.bad('conclude/never/cis/disconnect-not-established',
+                      f'Disconnect for the configured, never created CIS {h:#06x} was answered PENDING; no Disconnection '
+                      f'Complete for it follows; history {hist}')
+
     # ---- LE Create CIS for CIS of the latest configurations -------------------------------
     ever_pending = set()
 
@@ -1025,6 +1049,19 @@ async def cig_case(case, r: R):
                       f'Disconnect of the established CIS {h:#06x} answered PENDING, no Disconnection Complete for it; '
                       f'history {hist}')
             else:
+                if rng.random() < 0.4:
+                    # a second Disconnect for the CIS that is down already: refused, or concluded
+                    m2 = len(rg.hci_log)
+                    resp2 = await command(hci.HCI_Disconnect_Command(connection_handle=h, reason=0x13), 'disconnect-cis')
+                    if resp2 is not None and getattr(resp2, 'status', 1) == 0:
+                        r.ev('pending_procedures_followed')
+                        await asyncio.sleep(2.0)
+                        await rg.quiesce()
+                        r.ev('oracle_evals')
+                        if not [e for e in disconnection_events(rg.hci_log, 0, m2) if e[2] == h]:
+                            r.bad('conclude/never/cis/disconnect-not-established',
+                                  f'a second Disconnect for CIS {h:#06x} (down already) was answered PENDING; no '
+                                  f'Disconnection Complete for it follows; history {hist}')
                 r.ev('cis_recreated_after_disconnect')
                 # (Device.create_cis needs a new setup_cig for a second use of a handle: the raw command is used)
                 await create([(h, established[h])], 'recreated-after-disconnect', raw=True)
@@ -1262,8 +1299,11 @@ def run_case(case, r: R):
 LEVEL_TEXT = ('Offline checkers over the tapped HCI log: exactly-one-reply per command packet for every registered '
               'command class and unregistered opcodes in two controller states with generated parameters, completion '
               'of every PENDING procedure within 300 virtual seconds, strict command/response alternation and '
-              'own-opcode delivery under 2-16 concurrent callers with delayed pipes, and 20 scripted procedure '
-              'scenarios. Sampling of parameters and schedules; not proof.')
+              'own-opcode delivery under 2-16 concurrent callers with delayed pipes, 24 scripted procedure '
+              'scenarios, generated CIG configuration histories (every CIS handle accepted as pending concluded by an '
+              'event carrying that handle, on both sides) and generated fragment trains of advertising / scan response / '
+              'periodic advertising data (each command answered once under its own opcode). Sampling of parameters, '
+              'histories and schedules; not proof.')
 LEVEL_NOTE = ('Trusted: vlib/ref_hci.py generator/encoder (from C01), the event parser and PROCEDURES table in '
               'checks/c03.py, rig taps, virtual-time loop.')
 TECHNIQUE = 'runtime monitoring: offline request/response and procedure-completion checker over tapped HCI log'
